@@ -160,24 +160,37 @@ pub fn layout_program(rng: &mut Rng) -> Value {
 }
 
 #[derive(Clone, Debug, PartialEq)]
-pub enum PathKind { File, Missing, Directory, Unreadable }
+pub enum PathKind { File, Missing, Directory, Unreadable,
+  /// the path is a symbolic link to the file
+  Symlink,
+  /// ... to a file whose name is not valid UTF-8 (a Latin-1 name on an old disk)
+  SymlinkOddTarget,
+  /// a link whose (non-UTF-8) target does not exist
+  DanglingOdd,
+  /// a link that points at itself (ELOOP)
+  SymlinkLoop,
+  /// the path itself has spaces, braces, a percent sign, a line break and non-ASCII letters
+  OddName }
 
 #[derive(Clone, Debug)]
-pub struct CaseD { pub bytes: Vec<u8>, pub path: PathKind, pub ops: Vec<Op>, pub origin: String }
+pub struct CaseD { pub bytes: Vec<u8>, pub path: PathKind, pub ops: Vec<Op>, pub origin: String,
+  /// storage faults while the file is read (sysseam::arm_file_reads): (mode, parameter); mode 0 = none
+  pub read_plan: (u8, u32) }
 impl CaseD {
   pub fn json(&self) -> Value {
     let content = match std::str::from_utf8(&self.bytes) { Ok(s) => json!(s), Err(_) => json!({"bytes": self.bytes}) };
-    json!({"world": "D", "origin": self.origin, "path": format!("{:?}", self.path), "file_content": content, "ops": self.ops.iter().map(op_str).collect::<Vec<_>>()})
+    json!({"world": "D", "origin": self.origin, "path": format!("{:?}", self.path), "read_plan": [self.read_plan.0, self.read_plan.1], "file_content": content, "ops": self.ops.iter().map(op_str).collect::<Vec<_>>()})
   }
   pub fn from_json(v: &Value) -> Result<CaseD, String> {
     let fc = v.get("file_content").ok_or("case: no file_content")?;
     let bytes = if let Some(s) = fc.as_str() { s.as_bytes().to_vec() } else { fc.get("bytes").and_then(|b| b.as_array()).ok_or("case: bad file_content")?.iter().map(|x| x.as_u64().unwrap_or(0) as u8).collect() };
-    let path = match v.get("path").and_then(|x| x.as_str()).unwrap_or("File") { "Missing" => PathKind::Missing, "Directory" => PathKind::Directory, "Unreadable" => PathKind::Unreadable, _ => PathKind::File };
+    let path = match v.get("path").and_then(|x| x.as_str()).unwrap_or("File") { "Missing" => PathKind::Missing, "Directory" => PathKind::Directory, "Unreadable" => PathKind::Unreadable, "Symlink" => PathKind::Symlink, "SymlinkOddTarget" => PathKind::SymlinkOddTarget, "DanglingOdd" => PathKind::DanglingOdd, "SymlinkLoop" => PathKind::SymlinkLoop, "OddName" => PathKind::OddName, _ => PathKind::File };
+    let read_plan = v.get("read_plan").and_then(|x| x.as_array()).map(|a| (a.get(0).and_then(|x| x.as_u64()).unwrap_or(0) as u8, a.get(1).and_then(|x| x.as_u64()).unwrap_or(0) as u32)).unwrap_or((0, 0));
     let mut ops = vec![];
     for o in v.get("ops").and_then(|o| o.as_array()).cloned().unwrap_or_default() { ops.push(op_from(o.as_str().ok_or("case: op not a string")?)?); }
-    Ok(CaseD { bytes, path, ops, origin: v.get("origin").and_then(|x| x.as_str()).unwrap_or("").to_string() })
+    Ok(CaseD { bytes, path, ops, origin: v.get("origin").and_then(|x| x.as_str()).unwrap_or("").to_string(), read_plan })
   }
-  pub fn hash(&self) -> u64 { let mut h = H::new(); for b in &self.bytes { h.u(*b as u64); } h.u(self.path.clone() as u64 + 0x100); hash_ops(&mut h, &self.ops); h.fin() }
+  pub fn hash(&self) -> u64 { let mut h = H::new(); for b in &self.bytes { h.u(*b as u64); } h.u(self.path.clone() as u64 + 0x100); if self.read_plan.0 != 0 { h.u(0x4ead); h.u(self.read_plan.0 as u64); h.u(self.read_plan.1 as u64); } hash_ops(&mut h, &self.ops); h.fin() }
 }
 
 thread_local! { static DIR: RefCell<Option<String>> = RefCell::new(None); }
@@ -201,7 +214,7 @@ fn scratch_dir() -> String {
 pub fn cleanup_scratch() { let _ = std::fs::remove_dir_all(scratch_base()); }
 
 #[derive(Default, Clone, Debug)]
-pub struct ObsD { pub accepted: bool, pub rejected_with_message: bool, pub mappings: usize, pub steps: u64, pub empty_message: bool, pub digest: u64 }
+pub struct ObsD { pub read_faults_applied: u64, pub accepted: bool, pub rejected_with_message: bool, pub mappings: usize, pub steps: u64, pub empty_message: bool, pub digest: u64 }
 
 /// Outcome of the load+run pipeline. A panic anywhere is the violation.
 pub fn execute_d(case: &CaseD, obs: &mut ObsD) -> Option<Violation> {
@@ -211,9 +224,25 @@ pub fn execute_d(case: &CaseD, obs: &mut ObsD) -> Option<Violation> {
     PathKind::Missing => format!("{}/does-not-exist.json", dir),
     PathKind::Directory => format!("{}/adir", dir),
     PathKind::Unreadable => { let p = format!("{}/adir/not-a-dir-component/layout.json", dir); p }
+    PathKind::Symlink | PathKind::SymlinkOddTarget | PathKind::DanglingOdd | PathKind::SymlinkLoop => {
+      use std::os::unix::ffi::OsStrExt;
+      let link = format!("{}/link.json", dir);
+      let _ = std::fs::remove_file(&link);
+      let odd: &[u8] = b"layout-caf\xe9 \xff.json";
+      let target_name: Vec<u8> = match case.path { PathKind::Symlink => b"target.json".to_vec(), PathKind::SymlinkLoop => b"link.json".to_vec(), _ => odd.to_vec() };
+      let target = std::path::Path::new(&dir).join(std::ffi::OsStr::from_bytes(&target_name));
+      if case.path == PathKind::DanglingOdd { let _ = std::fs::remove_file(&target); }
+      else if case.path != PathKind::SymlinkLoop { if let Err(e) = std::fs::write(&target, &case.bytes) { return Some(Violation::new("C14-harness", 0, format!("cannot write scratch file: {}", e))); } }
+      // a relative link, as `ln -s` makes them
+      if let Err(e) = std::os::unix::fs::symlink(std::ffi::OsStr::from_bytes(&target_name), &link) { return Some(Violation::new("C14-harness", 0, format!("cannot make scratch link: {}", e))); }
+      link
+    }
+    PathKind::OddName => { let p = format!("{}/my {{layout}} 100% caf\u{e9}\n\u{1f600}.json", dir); if let Err(e) = std::fs::write(&p, &case.bytes) { return Some(Violation::new("C14-harness", 0, format!("cannot write scratch file: {}", e))); } p }
   };
   let p2 = path.clone();
+  if case.read_plan.0 != 0 { crate::sysseam::arm_file_reads(case.read_plan.0, case.read_plan.1); }
   let loaded = catch_unwind(AssertUnwindSafe(|| crate::layout_loading::load_layout_from_file(&p2)));
+  obs.read_faults_applied = crate::sysseam::disarm_file_reads();
   let mut d = H::new();
   match loaded {
     Err(e) => Some(Violation::new("C14-load-panic", 0, format!("loading panicked: {}", panic_msg(&e))).with_cause(&panic_msg(&e))),
@@ -274,7 +303,7 @@ impl StoreCampaign {
     if l.mappings.iter().any(|m| m.from.is_empty()) { ho.intents = 0; ho.bias = false; }
     gen_ops(rng, &l, &ho, &mut st)
   }
-  pub fn generate(&self, seed: u64, idx: u64, faults: &mut [u64; 10]) -> CaseD {
+  pub fn generate(&self, seed: u64, idx: u64, faults: &mut [u64; 12]) -> CaseD {
     let mut rng = Rng::new(seed);
     if self.sweep_truncations {
       // exhaustive: every truncation offset of every shipped text (crash during save)
@@ -282,7 +311,7 @@ impl StoreCampaign {
       let bytes = self.texts[ti].1.as_bytes()[..off].to_vec();
       faults[0] += 1;
       let ops = self.history(&mut rng, &bytes);
-      return CaseD { bytes, path: PathKind::File, ops, origin: format!("{} truncated at {}", self.texts[ti].0, off) };
+      return CaseD { bytes, path: PathKind::File, ops, origin: format!("{} truncated at {}", self.texts[ti].0, off), read_plan: (0, 0) };
     }
     let (mut bytes, origin) = match rng.below(10) {
       0..=1 => { let (n, t) = &self.texts[rng.below(self.texts.len())]; (t.as_bytes().to_vec(), n.clone()) }
@@ -318,7 +347,13 @@ impl StoreCampaign {
       _ => {}
     }
     let ops = self.history(&mut rng, &bytes);
-    CaseD { bytes, path, ops, origin }
+    // how the file is reached and how the disk behaves while it is read: independent of what is stored
+    if path == PathKind::File && rng.chance(1, 8) {
+      path = match rng.below(6) { 0 | 1 => PathKind::Symlink, 2 => PathKind::SymlinkOddTarget, 3 => PathKind::DanglingOdd, 4 => PathKind::SymlinkLoop, _ => PathKind::OddName };
+      faults[10] += 1;
+    }
+    let read_plan = if rng.chance(1, 6) { faults[11] += 1; match rng.below(4) { 0 => (1u8, [1u32, 2, 3, 5, 7, 64][rng.below(6)]), 1 => (2, rng.below(bytes.len() + 2) as u32), 2 => (3, 1 + rng.below(3) as u32), _ => (4, 1 + rng.below(4) as u32) } } else { (0, 0) };
+    CaseD { bytes, path, ops, origin, read_plan }
   }
 }
 
@@ -377,14 +412,14 @@ impl Campaign for StoreCampaign {
     acc.declare_probe("accepted_layouts"); acc.declare_probe("rejected_with_message"); acc.declare_probe("accepted_with_two_or_more_mappings");
   }
   fn run(&self, seed: u64, idx: u64, ctx: &mut Ctx) -> RunResult {
-    let mut faults = [0u64; 10];
+    let mut faults = [0u64; 12];
     let case = self.generate(seed, idx, &mut faults);
     for (i, f) in FAULT_NAMES.iter().enumerate() { ctx.acc.fault(f, faults[i]); }
     let mut obs = ObsD::default();
     let v = run_d(&case, &mut obs);
     if obs.accepted { ctx.acc.probe("accepted_layouts"); if obs.mappings >= 2 { ctx.acc.probe("accepted_with_two_or_more_mappings"); } }
     if obs.rejected_with_message { ctx.acc.probe("rejected_with_message"); }
-    ctx.acc.count("steps", obs.steps);
+    ctx.acc.count("steps", obs.steps); ctx.acc.count("file_reads_shortened_failed_or_interrupted", obs.read_faults_applied);
     let faulted = faults.iter().any(|x| *x > 0);
     let nt = (obs.accepted && obs.mappings >= 2) || (obs.rejected_with_message && faulted);
     let sample = if ctx.want_sample { Some(case.json()) } else { None };
@@ -406,4 +441,4 @@ impl Campaign for StoreCampaign {
   }
 }
 
-pub const FAULT_NAMES: [&str; 10] = ["torn_write_truncation", "bit_flip", "duplicated_block", "dropped_block", "transposed_blocks", "trailing_garbage", "zero_length_file", "zero_filled_tail", "bad_path_missing_dir_or_notdir", "non_utf8_byte"];
+pub const FAULT_NAMES: [&str; 12] = ["torn_write_truncation", "bit_flip", "duplicated_block", "dropped_block", "transposed_blocks", "trailing_garbage", "zero_length_file", "zero_filled_tail", "bad_path_missing_dir_or_notdir", "non_utf8_byte", "path_is_symlink_dangling_loop_or_oddly_named", "read_faults_short_counts_eio_eintr"];
